@@ -225,8 +225,14 @@ class InjectedValue(ValueError, InjectedFault):
         self.uid = uid
 
 
+class InjectedEmptyGroup(InjectedFault):
+    """an exception that is falsy: one that carries a collection of sub-errors and defines __len__"""
+    def __len__(self):
+        return 0
+
+
 FAULT_CLASSES = {'exception': InjectedFault, 'stopiteration': InjectedStop, 'keyerror': InjectedKey,
-                 'valueerror': InjectedValue}
+                 'valueerror': InjectedValue, 'falsy': InjectedEmptyGroup}
 
 
 class Faulty:
